@@ -26,6 +26,7 @@ from MIP.geom.forcad import transform_frame
 from MIP.geom.transforms import get_transforms
 
 from ..Surface.SurfaceMCNP import SurfaceMCNP
+from ..Surface.ConversionSurfaceMCNPToT4 import convert_special_quadric
 from .TransformationQuad import transformation_quad
 from .TransformationError import TransformationError
 
@@ -395,7 +396,14 @@ def transformation(trpl, surface):
     '''
     if not trpl:
         return surface
-    if surface.type_surface in (MS.SQ, MS.GQ):
+    if surface.type_surface == MS.SQ:
+        # the SQ parameters are not quadric coefficients: expand them first
+        _, gq_params = convert_special_quadric(surface)
+        params = transformation_quad(gq_params, trpl)
+        return SurfaceMCNP(surface.boundary_cond, MS.GQ,
+                           tuple(surface.param_surface), params,
+                           surface.idorigin)
+    if surface.type_surface == MS.GQ:
         frame = tuple(surface.param_surface)
         params = transformation_quad(surface.compl_param, trpl)
     else:
